@@ -74,6 +74,7 @@ class Ctx:
         self.contracts = {}
         self.only_key = only_key
         self.inconclusive = []
+        self.transient = []  # infrastructure errors that did not reproduce on retry (see check)
         self.deadline = None
         self.shared = None  # shared buffer: key of the case being evaluated (so a dying worker names its case)
         self.resume_after = None  # skip cases up to and including this key (restart after a worker death)
@@ -110,7 +111,27 @@ class Ctx:
         if len(self.samples) < 3:
             self.samples.append({"contract": contract, "params": params})
         try:
-            r = thunk()
+            try:
+                r = thunk()
+            except Exception as e0:  # noqa
+                # numba's on-disk cache is not safe against a source file that changes (or many workers compiling the
+                # same kernel) while it is being read: the symptom is a one-off TypingError / "can't unbox array" on an
+                # input that works a moment later.  Such an infrastructure error is retried; a deterministic failure
+                # (also a genuine numba typing defect of the library) fails again and is reported as before.
+                if not _looks_like_numba_infrastructure(e0):
+                    raise
+                r = _RETRY
+                for _ in range(2):
+                    time.sleep(0.5)
+                    try:
+                        r = thunk()
+                        self.transient.append({"contract": contract, "params": params,
+                                               "first_error": f"{type(e0).__name__}: {str(e0)[:200]}"})
+                        break
+                    except Exception:  # noqa
+                        r = _RETRY
+                if r is _RETRY:
+                    raise e0
         except Exception as e:  # noqa
             kind = classify_exception(e)
             msg = f"{type(e).__name__}: {str(e)[:300]}"
@@ -137,7 +158,17 @@ class Ctx:
     def result(self):
         return dict(driver=self.name, chunk=self.chunk, evaluations=self.evaluations, nontrivial=sorted(self.nontrivial),
                     violations=self.violations, samples=self.samples, rejections=self.rejections,
-                    contracts=self.contracts, inconclusive=self.inconclusive)
+                    contracts=self.contracts, inconclusive=self.inconclusive, transient=self.transient)
+
+
+_RETRY = object()
+
+
+def _looks_like_numba_infrastructure(e):
+    n = type(e).__name__
+    m = str(e)
+    return n in ("TypingError", "LoweringError", "NumbaError", "InternalError") or "can't unbox" in m or \
+        "nopython mode pipeline" in m
 
 
 def _run_chunk(args, shared=None, resume_after=None):
